@@ -169,7 +169,7 @@ func runInbound(c *run.Ctx, ip inboundParams) *inboundRun {
 			}
 			m := &inMsg{N: n, QoS: qos, Topic: inTopic(n, qos), Payload: sim.MarkerPayload(n, size)}
 			var before int
-			cn := w.Cur()
+			cn := w.CurConn()
 			if cn != nil {
 				before = cn.InLen()
 			}
@@ -217,7 +217,7 @@ func runInbound(c *run.Ctx, ip inboundParams) *inboundRun {
 				d.Publish(1+c.Rng.Intn(2), false, 5)
 			}
 		case r < 0.75+ip.PCompete+ip.PBreak:
-			if cn := w.Cur(); cn != nil {
+			if cn := w.CurConn(); cn != nil {
 				ir.breaks++
 				if c.Rng.Intn(2) == 0 {
 					cn.EndInbound(-1, io.EOF)
@@ -562,10 +562,7 @@ func checkC04(ir *inboundRun) (dupsSeen int) {
 					continue
 				}
 				nx := ir.allReads[j+1]
-				// (an invocation that came back with an error may have failed before it
-				// got to save the marker, e.g. while skipping the rest of a big payload;
-				// the marker Save itself is judged below)
-				if nx.Gen == prev.gen && (nx.R.Err == nil || nx.R.Big) {
+				if nx.Gen == prev.gen && !(nx.R.Err != nil && errors.Is(nx.R.Err, sim.ErrStore)) {
 					c.Violate("returned-again-after-ownership-and-restart", fmt.Sprintf("message %d (identifier %#04x) was returned at #%d, the next ReadSlices came back at #%d (ownership taken), yet after a restart it was returned again at #%d", n, m.Out.ID, prev.seq, nx.R.Seq, cur.seq), map[string]any{"trace_tail": ir.W.TraceTail(traceN(ir.c))})
 				}
 			}
